@@ -276,3 +276,10 @@ ben('C05', P, "        if self._length == 0:\n            self._lengths = length
 brk('C05', P, "        assert self.iscontinuous()\n        return self.start == self.end", "        assert self.iscontinuous()\n        return self.start == self[0].start", 'isclosed compares start with itself')
 brk('C05', P, "    def isclosedac(self):\n        assert len(self) != 0\n        return self.start == self.end", "    def isclosedac(self):\n        assert len(self) != 0\n        return self.start != self.end", 'isclosedac inverted')
 ben('C05', P, "        assert self.iscontinuous()\n        return self.start == self.end", "        assert self.iscontinuous()\n        return self._segments[-1].end == self._segments[0].start", 'isclosed through the store')
+
+# ---------------------------------------------------------------- C16 semantic Path-cache rules
+brk('C16', P, "            return 0, 0\n        self._calc_lengths()", "            return 0, 0", 'T2t reads the table without making sure it is there')
+brk('C16', P, "                and self._length_tol[0] <= error \\", "                and self._length_tol[0] >= error \\", 'Path table accepted when computed with a LARGER error')
+brk('C16', P, "        self._length_tol = (error, min_depth)\n", "", 'rebuilt table does not record its tolerances')
+brk('C16', P, "        lengths = [each.length(error=error, min_depth=min_depth) for each in\n                   self._segments]", "        lengths = [each.length() for each in\n                   self._segments]", 'segment lengths re-measured with default tolerances')
+ben('C16', P, "        self._length = sum(lengths)\n        self._length_tol = (error, min_depth)", "        self._length_tol = (error, min_depth)\n        self._length = sum(lengths)", 'swap two independent stores')
